@@ -12,6 +12,7 @@ import (
 	"github.com/go-i2p/common/lease_set2"
 	"github.com/go-i2p/crypto/kdf"
 	"go.step.sm/crypto/x25519"
+	xchacha "golang.org/x/crypto/chacha20poly1305"
 )
 
 var localZoneMu sync.Mutex
@@ -36,6 +37,32 @@ func scalarPlusL(alpha [32]byte, k int64) ([32]byte, bool) {
 		out[i] = b[31-i]
 	}
 	return out, true
+}
+
+// sealIndependently: eph(32) | nonce(12) | ciphertext | tag(16) for the recipient, built without the library under test
+func sealIndependently(rng *rand.Rand, recipient x25519.PublicKey, plaintext []byte) ([]byte, error) {
+	ephPub, ephPriv, err := x25519.GenerateKey(rng)
+	if err != nil {
+		return nil, err
+	}
+	shared, err := ephPriv.SharedKey(recipient)
+	if err != nil {
+		return nil, err
+	}
+	var root [32]byte
+	copy(root[:], shared)
+	key, err := kdf.NewKeyDerivation(root).DeriveForPurpose(kdf.PurposeEncryptedLeaseSetEncryption)
+	if err != nil {
+		return nil, err
+	}
+	aead, err := xchacha.New(key[:])
+	if err != nil {
+		return nil, err
+	}
+	nonce := make([]byte, 12)
+	rng.Read(nonce)
+	out := append(append([]byte{}, ephPub...), nonce...)
+	return aead.Seal(out, nonce, plaintext, nil), nil
 }
 
 func init() {
@@ -99,6 +126,32 @@ func init() {
 		okp, samep, _ := decrypt(ct, &priv)
 		okb, sameb, _ := decrypt(ct, []byte(append([]byte{}, priv...)))
 		res["dec_forms_same"] = okp && samep && okb && sameb
+		// an independent sealing of the same layout (X25519, the dependency's HKDF purpose, ChaCha20-Poly1305 from x/crypto): what the
+		// library decrypts is what a peer encrypted, and the plaintext a peer chose may carry bytes after the LeaseSet2
+		craft := []any{}
+		res["indep_sealed_decrypts"] = false
+		for _, extra := range []int{0, 1, 3, 7, 8, 20} {
+			pt := append(append([]byte{}, plain...), fillBytes(extra, 0xC3)...)
+			sealed, serr := sealIndependently(rng, pub, pt)
+			if serr != nil {
+				continue
+			}
+			out := map[string]any{"extra": extra, "panicked": false, "ok": false, "same": false}
+			func() {
+				defer func() {
+					if p := recover(); p != nil {
+						out["panicked"] = true
+					}
+				}()
+				okd, samed, _ := decrypt(sealed, priv)
+				out["ok"], out["same"] = okd, samed
+			}()
+			if extra == 0 {
+				res["indep_sealed_decrypts"] = out["ok"].(bool) && out["same"].(bool)
+			}
+			craft = append(craft, out)
+		}
+		res["craft"] = craft
 		// one value, a history of calls: decryption (successful or refused) is a read-only operation on the EncryptedLeaseSet - the value
 		// serialises, verifies and decrypts afterwards exactly as it did before, and the caller's ciphertext slice is left alone
 		res["history_done"] = false
